@@ -264,6 +264,33 @@ PLAYBACK_PRELUDE = """
 #[cfg(test)] #[allow(unused_imports)] use std::{vec, vec::Vec};
 """
 
+def run_in_group(cmd, cwd, env, timeout):
+    """Run a command in its own session; afterwards kill whatever is left of the session (SMT solvers started by
+    CBMC survive a harness time-out as orphans and keep burning a core for hours)."""
+    import signal
+    def pre():
+        os.setsid()
+        _limits()
+    p = subprocess.Popen(cmd, cwd=cwd, env=env, text=True, stdout=subprocess.PIPE, stderr=subprocess.STDOUT, preexec_fn=pre)
+    try:
+        out, _ = p.communicate(timeout=timeout)
+        rc = p.returncode
+    except subprocess.TimeoutExpired:
+        rc = -9
+        out = ""
+    finally:
+        try:
+            os.killpg(p.pid, signal.SIGKILL)
+        except ProcessLookupError:
+            pass
+        try:
+            o2, _ = p.communicate(timeout=10)
+            out = out or o2 or ""
+        except Exception:
+            pass
+    return out or "", rc
+
+
 RESULT_RE = re.compile(r"^Thread (\d+): Checking harness (\S+?)\.\.\.")
 
 
@@ -362,13 +389,8 @@ def run_kani_group(scratch, crate, cfg, obs, jobs, solver_override=None, extra_t
         env["RUSTFLAGS"] = (env.get("RUSTFLAGS", "") + " " + rf).strip()
     t0 = time.time()
     hard = timeout * (1 + (len(obs) + max(1, jobs) - 1) // max(1, jobs)) + 600
-    try:
-        p = subprocess.run(cmd, cwd=scratch.src, env=env, text=True, capture_output=True, timeout=hard, preexec_fn=_limits)
-        out = p.stdout + "\n" + p.stderr
-        rc = p.returncode
-    except subprocess.TimeoutExpired as e:
-        out = (e.stdout or "") + "\n" + (e.stderr or "") if isinstance(e.stdout, str) else ""
-        rc = -9
+    if True:
+        out, rc = run_in_group(cmd, scratch.src, env, hard)
     wall = time.time() - t0
     if os.environ.get("VP_LOGDIR"):
         os.makedirs(os.environ["VP_LOGDIR"], exist_ok=True)
